@@ -171,6 +171,17 @@ def programs(rng, tier):
             a = noncanonical_variant(rng, a)
         if rng.random() < 0.25:
             b = noncanonical_variant(rng, b)
+        # the SAME operand in two or three positions (the harness hands identical operands out as one object, so that
+        # reference-identity shortcuts such as ite(f, g, f) are exercised)
+        al = rng.random()
+        if al < 0.08:
+            b = a
+        elif al < 0.14:
+            c = a
+        elif al < 0.20:
+            c = b
+        elif al < 0.23:
+            b = c = a
         k = rng.random()
         if k < 0.35:
             add(["bin", partial_table(rng, rng.choice(conns)), bdd_sx(a), bdd_sx(b)])
@@ -183,6 +194,15 @@ def programs(rng, tier):
         else:
             conn3 = tuple(rng.random() < 0.5 for _ in range(8))
             add(["tern", partial_table3(rng, conn3), bdd_sx(a), bdd_sx(b), bdd_sx(c)])
+    # every aliasing pattern of if_then_else / ternary_op on small operands
+    for _ in range(60 if tier == "quick" else 1500):
+        nv = rng.choice([2, 3, 4, 5])
+        f, g = random_bdd(rng, nv), random_bdd(rng, nv)
+        for x, y, z in ((f, g, f), (f, f, g), (f, g, g), (f, f, f), (g, f, g)):
+            add(["ite", bdd_sx(x), bdd_sx(y), bdd_sx(z)])
+        x, y, z = rng.choice(((f, g, f), (f, f, g), (f, g, g), (f, f, f)))
+        add(["tern", partial_table3(rng, tuple(rng.random() < 0.5 for _ in range(8))), bdd_sx(x), bdd_sx(y), bdd_sx(z)])
+        add(["named", rng.choice(list(NAMED)), bdd_sx(f), bdd_sx(f)])
     # variable-count mismatch must panic in both
     for _ in range(20):
         a, b = random_bdd(rng, 3), random_bdd(rng, 4)
